@@ -30,17 +30,17 @@ META = dict(
     level_text='every event history within the bound (solver-forked event choice per step, success/failure of each reconnection attempt and pool creation, removal during an attempt) runs through the real Cluster host-state methods and the real reconnection handler; after every step the invariants are checked: a down, known host has exactly one live reconnection series (or an up-transition in progress), a removed host has none and is never brought up, listeners see up/down once per transition, an up host has a pool in every session',
     level_note='one host, two sessions, histories of at most 5 (thorough 6) events; collaborators are recorders; the executor runs tasks inline; pre-emption at the blocking reconnection attempt (removal during it) and, in the race jobs, one pre-emption by a second thread (status up / status down / removal) at any acquire or release of the host lock inside the host-state methods',
     technique='symbolic execution (sx, solver-forked event and outcome variables) of the real cassandra.cluster.Cluster host-state methods, cassandra.pool._HostReconnectionHandler/_ReconnectionHandler.run and Host reconnection-handler bookkeeping over recorders',
-    bounds=dict(quick='1 host, 2 sessions, <= 5 events from {connection failure (pools open or not), status down, status up, timer fires (attempt ok / fails / host removed during it), pool future completes (ok / false / raises), remove}',
+    bounds=dict(quick='1 host, 2 sessions, <= 5 events from {connection failure (pools open or not), status down, status up, timer fires (attempt ok / fails / host removed during it), pool future completes (ok / false / raises), remove}; job on-add: a new host, two sessions, the first pool ready while the second session is asked or later, remaining pools complete in any order',
                 thorough='<= 6 events'),
     assumptions=['after a host is removed no status event or connection failure is delivered for that Host object (the control connection looks hosts up in the metadata); only its in-flight timers and pool futures remain', 'the conviction policy convicts on the first failure (SimpleConvictionPolicy)', 'a session reports an open pool exactly while it holds one for the host'],
     stubs=['sessions, profile manager, control connection, listener: recorders', 'scheduler: queue of (delay, callable); executor: inline', 'connection factory: scripted success/failure'],
-    outside=['several hosts at once', 'IGNORED distance', 'host additions through on_add', 'shutdown during these transitions (C45)'],
+    outside=['several hosts at once', 'IGNORED distance', 'host additions through on_add beyond the completion orders of job on-add', 'shutdown during these transitions (C45)'],
 )
 
 
 def encoded_functions():
     C = cc.Cluster
-    return [C.on_up, C._on_up_future_completed, C._cleanup_failed_on_up_handling, C.on_down, C._start_reconnector, C.on_remove,
+    return [C.on_add, C._finalize_add, C.on_up, C._on_up_future_completed, C._cleanup_failed_on_up_handling, C.on_down, C._start_reconnector, C.on_remove,
             C.signal_connection_failure, Host.get_and_set_reconnection_handler, Host.is_currently_reconnecting,
             cpool._ReconnectionHandler.run, cpool._ReconnectionHandler.start, cpool._HostReconnectionHandler.on_reconnection]
 
@@ -85,6 +85,9 @@ class Sess(object):
 
     def add_or_renew_pool(self, host, is_host_addition):
         self.w.log.append(('pool-requested', self.i))
+        hook = getattr(self.w, 'on_pool_request', None)
+        if hook:
+            hook(self.i)          # a call into the session: other threads (the executor finishing a pool) may act
         f = Fut()
         f.sess = self
         self.pending.append(f)
@@ -281,6 +284,40 @@ def h_history(V, steps=5, race=False):
         w.restore()
 
 
+def h_on_add(V):
+    """a new host is added (Cluster.on_add) with two sessions: the executor may finish the first session's pool while
+    the second session is still being asked for its pool, or before on_add has registered its callback; the listeners
+    must hear about the addition exactly once, after every session has its pool"""
+    w = World(V)
+    try:
+        cl = w.cluster
+        w.host.is_up = None
+        for s_ in w.sessions:
+            s_.pool = False
+        early = V.flag('first_pool_ready_while_second_session_is_asked')
+
+        def on_pool_request(i):
+            if i == 1 and early:
+                f0 = w.sessions[0].pending.pop(0)
+                w.sessions[0].pool = True
+                f0.finish(True)
+        w.on_pool_request = on_pool_request
+        cc.Cluster.on_add(cl, w.host)
+        V.tag('notified_before_all_pools', w.notes.count('add') > 0 and not all(s_.pool for s_ in w.sessions))
+        for step in range(2):
+            pend = [f for s_ in w.sessions for f in s_.pending]
+            if not pend:
+                break
+            f = pend[V.choice('complete%d' % step, len(pend))]
+            f.sess.pending.remove(f)
+            f.sess.pool = True
+            f.finish(True)
+        V.check(w.notes.count('add') == 1, 'listeners-notified-of-the-new-host-exactly-once', note='on_add delivered %d time(s)' % w.notes.count('add'))
+        V.check(w.host.is_up is True, 'new-host-marked-up-once-its-pools-exist')
+    finally:
+        w.restore()
+
+
 def jobs(tier):
     steps = 5 if tier == 'quick' else 6
     J = []
@@ -288,4 +325,5 @@ def jobs(tier):
         J.append(Job('history/e%d' % first, 'h_history', dict(steps=steps), dict(pin={'ev0': first}, max_paths=600000)))
     for first in range(3):
         J.append(Job('race/e%d' % first, 'h_history', dict(steps=3 if tier == 'quick' else 4, race=True), dict(pin={'ev0': first}, max_paths=400000, max_seconds=1200)))
+    J.append(Job('on-add', 'h_on_add', {}))
     return J
